@@ -32,6 +32,8 @@ Definition decode_op (z : list Z) : option op :=
   | [0; f] => Some (ModifyDetach f) | [1; f; s] => Some (ModifyAsync f s)
   | [2; h] => Some (LockShared h) | [3; h] => Some (TryLockShared h)
   | [4; h] => Some (TryLockSharedFor h) | [5; h] => Some (TryLockSharedUntil h)
+  (* an optional third argument selects a zero / negative duration or a deadline in the past in the driver: same behaviour *)
+  | [4; h; _] => Some (TryLockSharedFor h) | [5; h; _] => Some (TryLockSharedUntil h)
   | [6; h] => Some (ReadHandle h) | [7; h] => Some (BoolH h) | [8; h] => Some (Release h)
   | [9] => Some LoadOp | [10; s] => Some (FutureReady s) | [11; s] => Some (FutureGet s)
   | _ => None
